@@ -554,6 +554,79 @@ static void sec_mock_byref(vf::Ctx& c) {
     if (std::max(st.hist(0), st.hist(1)) > 0 || st.layout != LAY_SEPARATE) c.nontrivial(desc + (api ? "n" : "o"));
 }
 
+// ---------------------------------------------------------------- section: one value object set several times
+// The value an object denotes is the one of its LAST set call (a double set without a tolerance has the default tolerance):
+// after any history of earlier set calls the object must be indistinguishable from a fresh object that got only the last one.
+static const double HTOL[] = { 0.0, 1e-9, 0.001, 0.005, 0.02, 0.5, 3.0, 1e300 };
+static void hist_set(MockNamedValue& v, unsigned kind, vf::Rng& r, std::string& log) {
+    switch (kind % 9) {
+    case 0: { double t = HTOL[r.below(8)]; v.setValue(r.range(-50, 50) / 4.0, t); log += "D"; log += std::to_string(t); break; }
+    case 1: v.setValue(r.range(-50, 50) / 4.0); log += "d"; break;
+    case 2: set_int(v, (int) r.below(T_N), (i128) r.range(0, 100)); log += "i"; break;
+    case 3: v.setValue((unsigned long long) ~0ull); log += "U"; break;
+    case 4: v.setValue(r.chance(50)); log += "b"; break;
+    case 5: v.setValue((const char*) g_s[r.below(3)]); log += "s"; break;
+    case 6: v.setValue((void*) &g_objs[r.below(3)]); log += "p"; break;
+    case 7: v.setMemoryBuffer((const unsigned char*) g_mem[r.below(3)], 4); log += "m"; break;
+    default: v.setObjectPointer("T1", &g_objs[r.below(3)]); log += "o"; break;
+    }
+    log += ",";
+}
+static void sec_reuse(vf::Ctx& c) {
+    vf::Rng& r = c.rng;
+    int nhist = (int) r.range(1, 4);
+    unsigned kinds[4]; for (int i = 0; i < nhist; i++) kinds[i] = r.chance(45) ? 0u : (unsigned) r.below(9);
+    int fin = (int) r.below(4);                       // 0 double without tolerance, 1 double with tolerance, 2 integer, 3 integer after double only
+    double a = r.range(-40, 40) / 4.0, tol = HTOL[r.below(8)];
+    int it = (int) r.below(T_N); i128 iv = (i128) r.range(0, 1000);
+    uint64_t sub = r.next();
+    std::string log;
+    MockNamedValue V("p"), W("p");
+    MockNamedValue::setDefaultComparatorsAndCopiersRepository(g_repo);
+    { vf::Rng hr(sub); for (int i = 0; i < nhist; i++) hist_set(V, kinds[i], hr, log); }
+    c.begin([=] { return vf::J().k("history", log).k("final", fin == 0 ? "double" : fin == 1 ? "double,tolerance" : "integer").k("a", a).k("tol", tol).k("int_type", IT_NAME[it]).k("int", s128(iv)).str(); });
+    bool had_explicit_tol = log.find('D') != std::string::npos;
+    if (fin == 0) { V.setValue(a); W.setValue(a); }
+    else if (fin == 1) { V.setValue(a, tol); W.setValue(a, tol); }
+    else { set_int(V, it, iv); set_int(W, it, iv); }
+    std::string fcls = fin == 0 ? "double-without-tolerance" : fin == 1 ? "double-with-tolerance" : "integer";
+    if (!(V.getType() == W.getType())) c.violation("reuse:type-differs:" + fcls, std::string("type after history [") + log + "] is " + V.getType().asCharString() + ", fresh object has " + W.getType().asCharString());
+    else if (!(V.toString() == W.toString())) c.violation("reuse:tostring-differs:" + fcls, std::string("after history [") + log + "] toString is " + V.toString().asCharString() + ", fresh object gives " + W.toString().asCharString());
+    if (fin <= 1) {
+        double etol = fin == 0 ? 0.005 : tol;
+        double gt = V.getDoubleTolerance(), gv = V.getDoubleValue();
+        if (!(gt == etol)) c.violation("reuse:tolerance-of-an-earlier-set-kept:" + fcls, "after history [" + log + "] tolerance is " + std::to_string(gt) + " expected " + std::to_string(etol));
+        if (!(gv == a)) c.violation("reuse:value-of-an-earlier-set-kept:" + fcls, "double value " + std::to_string(gv) + " expected " + std::to_string(a));
+        // probes at distances around every tolerance of the table (exact binary fractions are avoided as boundaries: strictly inside / outside)
+        for (int k = 0; k < 8; k++) {
+            for (int side = 0; side < 2; side++) {
+                double dist = HTOL[k] * (side ? 1.5 : 0.5);
+                if (!(dist < 1e200)) continue;
+                double b = a + dist;
+                int exp = doubles_oracle(a, b, etol);
+                if (exp < 0) { c.count("reuse_probe_rounding_ambiguous_skipped"); continue; }
+                MockNamedValue B("p"); B.setValue(b, 0.0);
+                bool got = V.equals(B), fresh = W.equals(B);
+                if (got != (exp == 1)) c.violation("reuse:double-equals-wrong:" + fcls, "after history [" + log + "] a=" + std::to_string(a) + " b=" + std::to_string(b) + " tolerance " + std::to_string(etol) + ": equals=" + std::to_string(got) + (fresh == (exp == 1) ? " (a fresh object answers correctly)" : ""));
+                c.count("reuse_double_probes");
+                if (had_explicit_tol) c.count(exp == 1 ? "reuse_double_probes_equal_after_an_earlier_explicit_tolerance" : "reuse_double_probes_unequal_after_an_earlier_explicit_tolerance");
+            }
+        }
+    } else {
+        for (int tb = 0; tb < T_N; tb++) for (int d = -1; d <= 1; d++) {
+            i128 vb = iv + d; if (vb < 0) continue;
+            MockNamedValue B("p"); set_int(B, tb, vb);
+            bool exp = d == 0;
+            if (V.equals(B) != exp || B.equals(V) != exp) c.violation(std::string("reuse:int-equals-wrong:") + IT_NAME[it] + "~" + IT_NAME[tb], "after history [" + log + "]");
+            c.count("reuse_int_probes");
+        }
+        MockNamedValue D("p"); D.setValue((double) (long long) iv, 1e300);
+        if (V.equals(D) || D.equals(V)) c.violation("reuse:int-equals-double", "after history [" + log + "] an integer value equals a double");
+    }
+    c.count(had_explicit_tol ? "reuse_histories_with_an_earlier_explicit_tolerance" : "reuse_histories_other");
+    c.nontrivial(log + fcls + std::to_string(a) + std::to_string(tol) + s128(iv));
+}
+
 int main(int argc, char** argv) {
     init_pairs(); init_getters();
     g_repo = new MockNamedValueComparatorsAndCopiersRepository;
@@ -568,6 +641,7 @@ int main(int argc, char** argv) {
         { "getters_random", 3000, 150000, sec_randgetters, false },
         { "by_reference_storage_histories", 8000, 400000, sec_byref, false },
         { "mock_by_reference_storage", 2500, 60000, sec_mock_byref, false },
+        { "value_object_set_several_times", 4000, 200000, sec_reuse, false },
     };
     return vf::harness_main(argc, argv, S, nullptr);
 }
